@@ -67,31 +67,37 @@ Theorem C10G_remove_only_splits : forall g k s t a b,
   connected (remove_relation g k s t) a b -> connected g a b.
 Proof. exact remove_only_splits. Qed.
 
-(* one call removes ALL edges between the two entities (either direction) of this kind, and
-   nothing else; with an unregistered entity it does nothing *)
+(* one call removes ALL edges stored from source to target with this kind (parallel edges
+   included), and nothing else -- in particular not an edge of this kind from target to source;
+   with an unregistered entity it does nothing *)
 Theorem C10G_remove_exact_edges : forall g k s t,
   registered g s = true -> registered g t = true ->
-  g_edges (remove_relation g k s t) =
-  filter (fun e => negb (connects s t e && (edge_kind e =? k))) (g_edges g).
+  g_edges (remove_relation g k s t) = filter (fun e => negb (to_remove k s t e)) (g_edges g).
 Proof. exact remove_relation_edges. Qed.
+
+Theorem C10G_to_remove_exact : forall k s t e, to_remove k s t e = true <-> e = (s, t, k).
+Proof. exact to_remove_spec. Qed.
 
 Theorem C10G_remove_unregistered : forall g k s t,
   registered g s = false \/ registered g t = false -> remove_relation g k s t = g.
 Proof. exact remove_relation_unregistered. Qed.
 
 Theorem C10G_remove_keeps_connected_by_other_edge : forall g k s t e,
-  wf g -> In e (g_edges g) -> connects s t e && (edge_kind e =? k) = false ->
+  wf g -> In e (g_edges g) -> to_remove k s t e = false ->
   connected (remove_relation g k s t) (edge_source e) (edge_target e).
 Proof. exact remove_keeps_connected_by_other_edge. Qed.
 
-(* graph against world: if the observers' calls follow the relationships of the world
-   (OnInsert -> add, OnReplace -> remove of an existing relationship) and the world never holds
-   two opposite relationships a -> b, b -> a of one kind, every relationship of the world joins
-   two entities of one graph.  Without `no_opposite` this fails: see
-   C10G_opposite_relations_removed_together. *)
+(* graph against world: the observers' calls follow the relationships of the world
+   (OnInsert -> add, OnReplace -> remove).  The edges of the graph are exactly the relationships
+   inserted and not replaced since the last clear, so every such relationship joins two
+   entities of one graph.  No side condition (before commit 9283409 of /repo this needed "the
+   world never holds two opposite relationships a -> b, b -> a of one kind"). *)
+Theorem C10G_graph_edges_are_world : forall ops,
+  g_edges (run_ops ops) = fold_left world_apply ops [].
+Proof. exact run_ops_edges. Qed.
+
 Theorem C10G_world_related_same_graph : forall ops s t k,
-  legal_from [] ops -> In (s, t, k) (fold_left world_apply ops []) ->
-  same_graph (run_ops ops) s t = true.
+  In (s, t, k) (fold_left world_apply ops []) -> same_graph (run_ops ops) s t = true.
 Proof. exact world_related_same_graph. Qed.
 
 (* what the hook `Graph::indices` returns in terms of the observables *)
@@ -199,10 +205,11 @@ Example C10G_same_kind_parallel_edges_removed_in_one_call :
   remove_relation g ChildOf 1 2 = rgraph_empty.
 Proof. vm_compute. repeat split. Qed.
 
-(* the stored direction does not matter for the removal *)
-Example C10G_remove_ignores_direction :
-  remove_relation (run_ops [OpAdd ChildOf 1 2]) ChildOf 2 1 = rgraph_empty.
-Proof. vm_compute. reflexivity. Qed.
+(* the stored direction matters for the removal: a reversed call removes nothing *)
+Example C10G_reversed_remove_keeps_edge :
+  remove_relation (run_ops [OpAdd ChildOf 1 2]) ChildOf 2 1 = run_ops [OpAdd ChildOf 1 2] /\
+  same_graph (run_ops [OpAdd ChildOf 1 2; OpRemove ChildOf 2 1]) 1 2 = true.
+Proof. vm_compute. repeat split. Qed.
 
 (* self-loops (`source = target`): counted as an incident edge by `is_orphan`; removed by
    `remove_relation(e, e)`, where `remove_entity` runs twice for the same entity *)
@@ -220,32 +227,24 @@ Example C10G_hook_split :
   = ([Some 3; Some 3; Some 1; Some 1; None], 2).
 Proof. vm_compute. reflexivity. Qed.
 
-(* A behaviour of the code against the property.  1 gets Rel(2), 2 gets Rel(1) (same kind), then
-   1 loses its Rel: the call removes the edges between 1 and 2 in both directions, so the
-   relationship 2 -> 1 that still exists has no edge; both entities lose their index and are
-   replicated independently.  (The premise `no_opposite` of C10G_world_related_same_graph fails.) *)
-Example C10G_opposite_relations_removed_together :
+(* Regression for the defect fixed by commit 9283409 of /repo.  1 gets Rel(2), 2 gets Rel(1)
+   (same kind), then 1 loses its Rel: only the edge 1 -> 2 goes, the relationship 2 -> 1 that still
+   exists keeps its edge and both entities stay in one graph.  (Before the fix the call removed the
+   edges between 1 and 2 in both directions and both entities lost their index.) *)
+Example C10G_opposite_relation_kept :
   let ops := [OpAdd 0 1 2; OpAdd 0 2 1; OpRemove 0 1 2] in
   fold_left world_apply ops [] = [(2, 1, 0)] /\
-  same_graph (run_ops ops) 2 1 = false /\
-  has_index (run_ops ops) 1 = false /\ has_index (run_ops ops) 2 = false /\
-  graphs_count (run_ops ops) = 0.
+  g_edges (run_ops ops) = [(2, 1, 0)] /\
+  same_graph (run_ops ops) 2 1 = true /\
+  has_index (run_ops ops) 1 = true /\ has_index (run_ops ops) 2 = true /\
+  graphs_count (run_ops ops) = 1 /\
+  graph_run ops [1; 2] = ([Some 2; Some 2], 1).
 Proof. vm_compute. repeat split. Qed.
 
-(* non-vacuity of C10G_world_related_same_graph *)
-Example C10G_world_example :
-  legal_from [] [OpAdd 0 1 2; OpAdd 1 1 2; OpAdd 0 3 2; OpRemove 0 1 2] /\
-  fold_left world_apply [OpAdd 0 1 2; OpAdd 1 1 2; OpAdd 0 3 2; OpRemove 0 1 2] [] = [(1, 2, 1); (3, 2, 0)].
-Proof.
-  split; [|vm_compute; reflexivity].
-  cbn [legal_from legal world_apply app filter edge_source edge_target edge_kind fst snd].
-  assert (Hno : forall w : world, (forall e, In e w -> edge_target e = 2 /\ edge_source e <> 2) -> no_opposite w).
-  { intros w Hw s t k _ H1 H2. destruct (Hw _ H1) as [Ht _]. destruct (Hw _ H2) as [_ Hs].
-    cbn in Ht, Hs. congruence. }
-  repeat split; try (apply Hno; cbn; intros e He;
-    repeat (destruct He as [<- | He]; [cbn; split; [reflexivity|discriminate]|]); destruct He).
-  cbn. left. reflexivity.
-Qed.
+(* the same with parallel edges: both 1 -> 2 edges go in one call, 2 -> 1 stays *)
+Example C10G_opposite_relation_kept_parallel :
+  g_edges (run_ops [OpAdd 0 1 2; OpAdd 0 2 1; OpAdd 0 1 2; OpRemove 0 1 2]) = [(2, 1, 0)].
+Proof. vm_compute. reflexivity. Qed.
 
 Check C10G_same_index_iff_connected : forall g a b, same_graph g a b = true <-> connected g a b.
 Check C10G_no_orphans : forall ops, wf (run_ops ops).
@@ -266,6 +265,8 @@ Print Assumptions C10G_remove_only_splits.
 Print Assumptions C10G_remove_exact_edges.
 Print Assumptions C10G_remove_unregistered.
 Print Assumptions C10G_remove_keeps_connected_by_other_edge.
+Print Assumptions C10G_to_remove_exact.
+Print Assumptions C10G_graph_edges_are_world.
 Print Assumptions C10G_world_related_same_graph.
 Print Assumptions C10G_indices_spec.
-Print Assumptions C10G_opposite_relations_removed_together.
+Print Assumptions C10G_opposite_relation_kept.
